@@ -7,6 +7,7 @@ import (
 	"fmt"
 	"runtime"
 	"strconv"
+	"strings"
 	"sync"
 	"sync/atomic"
 	"testing"
@@ -97,8 +98,18 @@ const gateGrace = 3 * time.Millisecond
 
 // run drives roles A and B; forced is the prefix of two-way decisions to take (0 = A, 1 = B).
 // It returns the decisions actually taken at two-way points.
-func (s *gateSched) run(forced []int) (taken []int) {
+func (s *gateSched) run(forced []int, lateB func(), lateAfter int) (taken []int) {
 	overall := time.Now().Add(20 * time.Second)
+	releasedA := 0
+	if lateB != nil && lateAfter == 0 {
+		lateB()
+		lateB = nil
+	}
+	defer func() {
+		if lateB != nil { // A finished before the launch point: B still has to run
+			lateB()
+		}
+	}()
 	for time.Now().Before(overall) {
 		s.mu.Lock()
 		// wait until something is parked or both roles are done
@@ -155,8 +166,16 @@ func (s *gateSched) run(forced []int) (taken []int) {
 		delete(s.parked, pick)
 		s.mu.Unlock()
 		close(ch)
+		if pick == "A" {
+			releasedA++
+			if lateB != nil && releasedA >= lateAfter {
+				// B enters only now: its first, gate-less stretch runs after A's first lateAfter segments
+				time.Sleep(gateGrace) // let A reach its next gate (or block)
+				lateB()
+				lateB = nil
+			}
+		}
 	}
-
 	return taken
 }
 
@@ -176,9 +195,11 @@ type exploreCase struct {
 	NoConnClose bool   `json:"no_conn_close,omitempty"`
 	Fallback    bool   `json:"fallback,omitempty"`
 	Schedule    []int  `json:"schedule"`
+	LateB       int    `json:"late_b,omitempty"` // B is launched only after A has been released from this many gates
 }
 
 type exTx struct {
+	kind  atomic.Value // classification of the event the handler received
 	id    int
 	err   error
 	isDo  bool
@@ -232,7 +253,7 @@ func runExplore(c exploreCase) (taken []int, trace []string, err error) {
 		return t
 	}
 	start := func(t *exTx) {
-		h := func(stun.Event) { t.calls.Add(1); t.seq.Store(w.Seq.Add(1)) }
+		h := func(e stun.Event) { t.kind.Store(classifyEvent(e)); t.calls.Add(1); t.seq.Store(w.Seq.Add(1)) }
 		if t.isDo {
 			t.err = w.Client.Do(request(t.id, 28), h)
 		} else {
@@ -318,28 +339,31 @@ func runExplore(c exploreCase) (taken []int, trace []string, err error) {
 	if fa == nil {
 		return nil, nil, fmt.Errorf("harness: unknown op %q", c.A)
 	}
-	launch("A", fa)
-	if c.B == "deliver" {
-		// the reader goroutine becomes role B when it wakes up with the datagram
-		delivering.Store(true)
-		origRead := w.Conn.OnRead
-		var once sync.Once
-		w.Agent.Before = func(opn string, _ [12]byte) {
-			if opn == "process" {
-				once.Do(func() { s.register("B") })
-			}
-			s.gate("agent." + opn)
-		}
-		_ = origRead
-		w.Conn.Enqueue(response(0, 1, 0))
-	} else {
-		fb := op("B", c.B)
-		if fb == nil {
+	var fb func()
+	if c.B != "deliver" {
+		if fb = op("B", c.B); fb == nil {
 			return nil, nil, fmt.Errorf("harness: unknown op %q", c.B)
+		}
+	}
+	launch("A", fa)
+	launchB := func() {
+		if c.B == "deliver" {
+			// the reader goroutine becomes role B when it wakes up with the datagram
+			delivering.Store(true)
+			var once sync.Once
+			w.Agent.Before = func(opn string, _ [12]byte) {
+				if opn == "process" {
+					once.Do(func() { s.register("B") })
+				}
+				s.gate("agent." + opn)
+			}
+			w.Conn.Enqueue(response(0, 1, 0))
+
+			return
 		}
 		launch("B", fb)
 	}
-	taken = s.run(c.Schedule)
+	taken = s.run(c.Schedule, launchB, c.LateB)
 	s.disable()
 	// ---- finalisation: close (if nobody did) and wait for everything
 	fin := make(chan struct{})
@@ -407,6 +431,14 @@ func runExplore(c exploreCase) (taken []int, trace []string, err error) {
 		case n > 0 && t.seq.Load() > cs:
 			return taken, trace, fmt.Errorf("id %d: handler invoked after Close returned; schedule %v, gates %v", t.id, taken, trace)
 		}
+		if k, _ := t.kind.Load().(string); k == "timeout" && !noRetrans {
+			// at most one retransmission can have happened in the explored window: a timeout may be
+			// reported only after the last of the 7 retransmissions (a transaction cut short by Close
+			// gets a closed error)
+			return taken, trace, fmt.Errorf("id %d: handler received a timeout although its retransmissions were not exhausted; schedule %v, gates %v", t.id, taken, trace)
+		} else if strings.HasPrefix(k, "other:") {
+			return taken, trace, fmt.Errorf("id %d: handler received %s; schedule %v, gates %v", t.id, k, taken, trace)
+		}
 	}
 	if g := leakedGoroutines(); g != "" {
 		return taken, trace, fmt.Errorf("goroutine left behind after Close:\n%s", g)
@@ -460,34 +492,42 @@ func exploreAll(t *testing.T, rec *evid.Rec, prop string, budget int, only func(
 					if idx%nshards != shard {
 						continue
 					}
-					base := exploreCase{State: st, A: a, B: b, NoConnClose: v == 1, Fallback: v == 1}
-					// depth-first search over two-way decisions
-					stack := [][]int{{}}
-					runs := 0
+					lates := []int{0, 1, 2, 3, 4}
+					if !evid.Thorough() {
+						lates = []int{0, 1, 2}
+					}
 					seen := map[string]bool{}
-					for len(stack) > 0 && runs < budget {
-						prefix := stack[len(stack)-1]
-						stack = stack[:len(stack)-1]
-						c := base
-						c.Schedule = prefix
-						taken, trace, err := runExplore(c)
-						runs++
-						key := fmt.Sprint(trace)
-						rec.Case("interleaving:"+a+"||"+b, evid.NewH().Str(st).Str(a).Str(b).I(v).Str(key).Sum(), !seen[key] && len(taken) > 0, func() any {
-							return map[string]any{"case": c, "gates": trace}
-						})
-						seen[key] = true
-						if err != nil {
-							c.Schedule = taken
-							pbt.Fail(t, rec, "explore", c, "%v", err)
+					runs := 0
+					for _, late := range lates {
+						base := exploreCase{State: st, A: a, B: b, NoConnClose: v == 1, Fallback: v == 1, LateB: late}
+						// depth-first search over two-way decisions
+						stack := [][]int{{}}
+						lruns := 0
+						for len(stack) > 0 && lruns < budget/len(lates)+1 {
+							lruns++
+							prefix := stack[len(stack)-1]
+							stack = stack[:len(stack)-1]
+							c := base
+							c.Schedule = prefix
+							taken, trace, err := runExplore(c)
+							runs++
+							key := fmt.Sprint(trace)
+							rec.Case("interleaving:"+a+"||"+b, evid.NewH().Str(st).Str(a).Str(b).I(v).Str(key).Sum(), !seen[key] && len(taken) > 0, func() any {
+								return map[string]any{"case": c, "gates": trace}
+							})
+							seen[key] = true
+							if err != nil {
+								c.Schedule = taken
+								pbt.Fail(t, rec, "explore", c, "%v", err)
 
-							return
-						}
-						// children: flip each decision after the forced prefix
-						for i := len(prefix); i < len(taken); i++ {
-							if taken[i] == 0 {
-								child := append(append([]int(nil), taken[:i]...), 1)
-								stack = append(stack, child)
+								return
+							}
+							// children: flip each decision after the forced prefix
+							for i := len(prefix); i < len(taken); i++ {
+								if taken[i] == 0 {
+									child := append(append([]int(nil), taken[:i]...), 1)
+									stack = append(stack, child)
+								}
 							}
 						}
 					}
@@ -504,7 +544,7 @@ func TestC10_Interleavings(t *testing.T) {
 	rec := evid.For("C10")
 	c10Notes(rec)
 	exploreNotes(rec)
-	exploreAll(t, rec, "C10", evid.Pick(30, 600), nil)
+	exploreAll(t, rec, "C10", evid.Pick(21, 600), nil)
 }
 
 // TestC15_Interleavings explores the pairs that involve Close.
@@ -512,7 +552,7 @@ func TestC15_Interleavings(t *testing.T) {
 	rec := evid.For("C15")
 	c15Notes(rec)
 	exploreNotes(rec)
-	exploreAll(t, rec, "C15", evid.Pick(30, 600), func(a, b string) bool { return a == "close" || b == "close" })
+	exploreAll(t, rec, "C15", evid.Pick(21, 600), func(a, b string) bool { return a == "close" || b == "close" })
 }
 
 func replayExplore(t *testing.T, prop string) {
